@@ -171,6 +171,59 @@ func checkC16(e *Env) {
 		e.Violate(&Violation{What: fmt.Sprintf("Language(%d).String() = %s, expected %q (found by bisecting range [%d, %d])", lo, got, nameOf(lo), s.lo, s.hi), Ops: []plan.Op{op}, Expected: map[string]string{"out_hex": hxs(nameOf(lo)), "out": nameOf(lo)}, Observed: obs})
 	}
 
+	// long uninterrupted histories of random values: a memo of formatted names keyed by a
+	// truncated hash answers wrongly once in ~2^26 calls, so each child formats millions
+	randDigest := func(seed, n int64) (dig string, lastVal int64) {
+		g := rng.New(uint64(seed), "strrand")
+		h := sha256.New()
+		for k := int64(0); k < n; k++ {
+			lastVal = int64(g.Uint64())
+			h.Write([]byte(nameOf(lastVal)))
+			h.Write([]byte{'\n'})
+		}
+		return hx(h.Sum(nil)), lastVal
+	}
+	histories := e.Workers
+	perHistory := int64(e.pick(1<<23, 1<<26))
+	var histCalls int64
+	parallel(histories, e.Workers, func(hi int) {
+		seed := int64(e.Seed)*1000 + int64(hi)
+		op := plan.Op{Fn: "strrand", Lo: seed, N: perHistory}
+		res, died := e.RunProc(drv, []plan.Op{op}, nil, 0)
+		want, _ := randDigest(seed, perHistory)
+		mu.Lock()
+		histCalls += perHistory
+		mu.Unlock()
+		if died == "" && len(res) == 1 && res[0].Panic == "" && res[0].Dig == want {
+			return
+		}
+		// find the shortest failing prefix: the history up to the first wrong name
+		lo, hi2 := int64(1), perHistory
+		for lo < hi2 {
+			mid := lo + (hi2-lo)/2
+			r2, d2 := e.RunProc(drv, []plan.Op{{Fn: "strrand", Lo: seed, N: mid}}, nil, 0)
+			w2, _ := randDigest(seed, mid)
+			if d2 != "" || len(r2) != 1 || r2[0].Panic != "" || r2[0].Dig != w2 {
+				hi2 = mid
+			} else {
+				lo = mid + 1
+			}
+		}
+		fop := plan.Op{Fn: "strrand", Lo: seed, N: lo}
+		r3, d3 := e.RunProc(drv, []plan.Op{fop}, nil, 0)
+		_, val := randDigest(seed, lo)
+		got := "<no result: " + oneLine(d3, 100) + ">"
+		if len(r3) == 1 {
+			got = strconv.Quote(string(unhex(r3[0].Out)))
+			if r3[0].Panic != "" {
+				got = "panic: " + oneLine(r3[0].Panic, 200)
+			}
+		}
+		e.Violate(&Violation{What: fmt.Sprintf("Language(%d).String() = %s, expected %q, as call number %d of a history of String() calls on pseudo-random values (PRNG seed %d): the result depends on earlier calls", val, got, nameOf(val), lo, seed),
+			Ops: []plan.Op{fop}, Expected: map[string]string{"out_hex": hxs(nameOf(val)), "out": nameOf(val)}, Observed: r3})
+	})
+	values += histCalls
+
 	names := map[string]bool{}
 	for _, n := range supported {
 		names[n] = true
@@ -181,7 +234,7 @@ func checkC16(e *Env) {
 	e.WriteEvidence("exploration", map[string]any{
 		"evaluations":                 values,
 		"distinct_nontrivial":         dist.Len(),
-		"rule":                        "cases are int values of Language: the ten supported values (complete), every value in [-2^20, 2^20] (thorough [-2^24, 2^24]) through SHA-256 digests of 16384-value chunks computed in the child and compared with the digest of the expected names (a differing chunk is bisected to a single value), boundary values of every integer width, values congruent to supported ones modulo 2^8/2^16/2^32, and seeded random int64 values and windows; non-trivial = every value (the expected string is fully determined); distinct = single values and chunks whose output was confirmed",
+		"rule":                        "cases are int values of Language: the ten supported values (complete), every value in [-2^20, 2^20] (thorough [-2^24, 2^24]) through SHA-256 digests of 16384-value chunks computed in the child and compared with the digest of the expected names (a differing chunk is bisected to a single value), boundary values of every integer width, values congruent to supported ones modulo 2^8/2^16/2^32, seeded random int64 values and windows, log-uniform values of every bit length, and 16 uninterrupted histories of 2^23 (thorough 2^26) pseudo-random values each, formatted in one child and compared through a digest (a wrong name anywhere is located by bisecting the history length); non-trivial = every value (the expected string is fully determined); distinct = single values and chunks whose output was confirmed",
 		"samples":                     smp.List(),
 		"supported_names_observed":    supported,
 		"supported_subset_exhaustive": true,
